@@ -1177,7 +1177,7 @@ impl Gen {
     }
 }
 
-fn generate_a(seed: u64, quick: bool, faults: bool) -> Value {
+pub fn generate_a(seed: u64, quick: bool, faults: bool) -> Value {
     let mut rng = Rng::new(seed);
     let hash_seed = rng.next_u64() | 1;
     // swarm configuration
